@@ -10,7 +10,7 @@ from .common import call, RAISED
 CAP = {'quick': 1500, 'thorough': 3000}
 
 META = {
-    'rule': ('cases: the standard context stream (EXH 3x3, random, structured+decorated, wide). '
+    'rule': ('cases: the standard context stream (EXH 3x3, random, structured+decorated, wide) and one Boolean lattice of 16 384 concepts (thorough: 32 768). '
              'Per table: Context.__getitem__ on all/sampled non-empty object and property keys '
              '(label and raw form, disguised containers, results fed back for idempotence); '
              'Lattice.__getitem__ with label keys, every int index, negative indexes, slices and (); '
@@ -328,7 +328,8 @@ def setup(concepts, spec):
 
 
 def cases(tier, seed, spec):
-    return gen.ctx_stream(tier, seed, with_huge=True)
+    yield from gen.biglat(tier, sizes=(15,), quick_sizes=(14,))
+    yield from gen.ctx_stream(tier, seed, with_huge=True)
 
 
 def run_case(concepts, case, spec):
@@ -338,6 +339,9 @@ def run_case(concepts, case, spec):
         return
     sh = attach.shadow_of(ctx)
     huge = case['fam'].startswith('HUGE')
+    if case['fam'].startswith('BIGLAT'):
+        sh.cap_override = 70000
+        COL.count('biglat_cases')
     if not huge:
         sh.lattice(CAP[spec['tier']])     # too large => case skipped before any work
     COL.sample({'table': case, 'calls': 'ctx[key], lattice[key], lattice(properties), lattice[i]'})
